@@ -17,6 +17,7 @@ import (
 	"time"
 	"unicode"
 
+	runewidth "github.com/mattn/go-runewidth"
 	cron "github.com/robfig/cron/v3"
 )
 
@@ -775,6 +776,52 @@ func init() {
 	reg("unicode.IsLower", uni("unicode.IsLower", func(b byte) bool { return unicode.IsLower(rune(b)) }, unicode.IsLower))
 	reg("unicode.IsControl", uni("unicode.IsControl", func(b byte) bool { return unicode.IsControl(rune(b)) }, unicode.IsControl))
 
+	// ---------------- go-runewidth: contract stub ----------------
+	reg("github.com/mattn/go-runewidth.RuneWidth", func(fr *frame, a []value) value {
+		i := fr.i
+		s, ok := a[0].(*Sym)
+		if !ok {
+			return runewidth.RuneWidth(rune(asInt64(a[0])))
+		}
+		// printable ASCII: 1; control: 0; otherwise free in [0,2]
+		tt := i.tt
+		w, _ := kindWidth(s.k)
+		t := s.t
+		if i.decide(tt.And(tt.Bin(OpSle, tt.Const(w, 0x20), t), tt.Bin(OpSlt, t, tt.Const(w, 0x7f)))) {
+			return 1
+		}
+		if i.decide(tt.And(tt.Bin(OpSle, tt.Const(w, 0), t), tt.Bin(OpSlt, t, tt.Const(w, 0x20)))) {
+			return 0
+		}
+		i.stub("runewidth.RuneWidth on a symbolic non-ASCII rune (free in [0,2])")
+		return i.choose(3, "runewidth")
+	})
+	reg("github.com/mattn/go-runewidth.StringWidth", func(fr *frame, a []value) value {
+		i := fr.i
+		if s, ok := a[0].(string); ok {
+			return runewidth.StringWidth(s)
+		}
+		bs := strBytes(a[0])
+		tt := i.tt
+		n := 0
+		for _, b := range bs {
+			if c, ok := b.(uint8); ok {
+				if c >= 0x80 {
+					panic(unsupported{"runewidth.StringWidth: non-ASCII byte in partly symbolic string"})
+				}
+				n += runewidth.RuneWidth(rune(c))
+				continue
+			}
+			t := b.(*Sym).t
+			i.noteAssume("runewidth.StringWidth on symbolic text: bytes < 0x80 (display width of non-ASCII text is outside the claim)")
+			i.assumeTerm(tt.Bin(OpUlt, t, tt.Const(8, 0x80)), "StringWidth ASCII")
+			if i.decide(tt.And(tt.Bin(OpUle, tt.Const(8, 0x20), t), tt.Bin(OpUlt, t, tt.Const(8, 0x7f)))) {
+				n++
+			}
+		}
+		return n
+	})
+
 	// ---------------- strconv ----------------
 	reg("strconv.Itoa", func(fr *frame, a []value) value {
 		if s, ok := a[0].(*Sym); ok {
@@ -1150,6 +1197,13 @@ type symFloat struct {
 // (inf, infinity, nan, any case, optional sign) give Inf/NaN with nil error;
 // everything else gives either an error or an unknown finite value.
 func (i *interpreter) parseFloatStub(s value) value {
+	if cs, ok := i.uniqueString(s); ok {
+		f, err := strconv.ParseFloat(cs, 64)
+		if err != nil {
+			return tuple{f, i.newError(err.Error())}
+		}
+		return tuple{f, iface{}}
+	}
 	i.stub("strconv.ParseFloat (contract stub on symbolic text: special forms exact, otherwise free)")
 	bs := strBytes(s)
 	lower := func(b value) value {
@@ -1331,4 +1385,35 @@ func (i *interpreter) jsonToValue(x interface{}) value {
 		return iface{t: types.NewMap(types.Typ[types.String], emptyIface), v: m}
 	}
 	panic(unsupported{fmt.Sprintf("jsonToValue %T", x)})
+}
+
+// uniqueString: if the path condition pins a symbolic string to one value,
+// return it (one solver query); stubs use it to fall back to the real library.
+func (i *interpreter) uniqueString(v value) (string, bool) {
+	if cs, ok := v.(string); ok {
+		return cs, true
+	}
+	ss, ok := v.(SymStr)
+	if !ok || i.summ != nil {
+		return "", false
+	}
+	cur := make([]byte, len(ss))
+	diff := i.tt.False
+	for k, b := range ss {
+		if c, ok := b.(uint8); ok {
+			cur[k] = c
+			continue
+		}
+		t := b.(*Sym).t
+		cur[k] = byte(t.Eval(i.model))
+		diff = i.tt.Or(diff, i.tt.Not(i.tt.Eq(t, i.tt.Const(8, uint64(cur[k])))))
+	}
+	if diff.IsFalse() {
+		return string(cur), true
+	}
+	vd, _ := i.solver.Check(append(append([]Lit{}, i.pc...), Lit{diff, false}))
+	if vd == Unsat {
+		return string(cur), true
+	}
+	return "", false
 }
